@@ -114,8 +114,7 @@ def run(eng, rep, tier):
     ob.decide("R7", "C20.2", rl, "markers-agree", sorted(wv + wt) == sorted(rm) and len(rm) == 2,
               "the markers written by to_text are the ones recognised by the reader",
               "markers written %s, recognised %s" % (wv + wt, rm), None, site=site_of(prog, ist, ist.node))
-    slices = sorted(ast.unparse(s.slice) for s in ast.walk(rl.node) if isinstance(s, ast.Subscript) and isinstance(s.slice, ast.Slice)
-                    and "body_component" in ast.unparse(s.value))
+    slices = sorted(ast.unparse(s.slice) for s in ast.walk(rl.node) if isinstance(s, ast.Subscript) and isinstance(s.slice, ast.Slice))
     mlen = len(rm[0]) if rm else 0
     ok = ("%d:-1" % mlen) in slices and "1:4" in slices and all(m[1:4] in ("VAR", "TER") for m in rm)
     ob.decide("R7", "C20.2", rl, "slices-match-markers", ok, "the reader strips exactly the marker and its closing quote",
@@ -143,11 +142,15 @@ def run(eng, rep, tier):
     # its own predicate whether an unmarked token is a variable: evaluate both over character classes
     CLASSES = ("ascii-upper", "ascii-lower", "digit", "non-ascii-upper", "non-ascii-lower", "other")
 
-    def pred_classes(test):
+    def pred_classes(test, defs=None):
         """character classes of text[0] for which the test is true, or None if not understood"""
         txt = ast.unparse(test)
+        if isinstance(test, ast.Name) and defs and test.id in defs and (
+                isinstance(defs[test.id], (ast.BoolOp, ast.Compare)) or
+                (isinstance(defs[test.id], ast.UnaryOp) and isinstance(defs[test.id].op, ast.Not))):
+            return pred_classes(defs[test.id], defs)      # a named boolean
         if isinstance(test, ast.BoolOp) and isinstance(test.op, ast.And):
-            sets = [pred_classes(v) for v in test.values]
+            sets = [pred_classes(v, defs) for v in test.values]
             sets = [x for x in sets if x != "nonempty"]
             if any(x is None for x in sets) or not sets:
                 return None
@@ -156,7 +159,7 @@ def run(eng, rep, tier):
                 out &= x
             return out
         if isinstance(test, ast.UnaryOp) and isinstance(test.op, ast.Not):
-            inner = pred_classes(test.operand)
+            inner = pred_classes(test.operand, defs)
             return None if inner in (None, "nonempty") else set(CLASSES) - inner
         if isinstance(test, ast.Name) or (isinstance(test, ast.Compare) and "len(" in txt):
             return "nonempty"
@@ -173,14 +176,40 @@ def run(eng, rep, tier):
         return None
 
     def marker_pred(fn):
+        """classes of text[0] for which to_text writes the marker: `if c: return '"VAR:..."'`, the same with the marker
+        on the fall-through / else side, or a conditional expression"""
+        def has_marker(node):
+            return any(isinstance(c, ast.Constant) and isinstance(c.value, str) and ":" in c.value for c in ast.walk(node))
+
+        def neg(x):
+            return None if x in (None, "nonempty") else set(CLASSES) - x
+        from .counters import _single_defs
+        defs = _single_defs(fn.node)
+        _pc = pred_classes
+
+        def pred_classes_(t):
+            return _pc(t, defs)
         for sub in ast.walk(fn.node):
-            if isinstance(sub, ast.If) and any(isinstance(r, ast.Return) and ":" in ast.unparse(r) for r in sub.body):
-                return pred_classes(sub.test)
+            if isinstance(sub, ast.If):
+                in_body = any(isinstance(r, ast.Return) and has_marker(r) for r in sub.body)
+                in_else = any(isinstance(r, ast.Return) and has_marker(r) for r in sub.orelse)
+                if in_body and not in_else:
+                    return pred_classes_(sub.test)
+                if in_else and not in_body:
+                    return neg(pred_classes_(sub.test))
+                if not in_body and not sub.orelse and any(isinstance(r, ast.Return) for r in sub.body):
+                    # `if c: return text` followed by `return '"VAR:' + text + '"'`
+                    return neg(pred_classes_(sub.test))
+            if isinstance(sub, ast.IfExp) and (has_marker(sub.body) != has_marker(sub.orelse)):
+                return pred_classes_(sub.test) if has_marker(sub.body) else neg(pred_classes_(sub.test))
         return None
     mark_v, mark_t = marker_pred(vt), marker_pred(tt)
     reader_upper = None
     for sub in ast.walk(rl.node):
-        if isinstance(sub, ast.Compare) and "ascii_uppercase" in ast.unparse(sub) and "body_component" in ast.unparse(sub):
+        if isinstance(sub, ast.Compare) and "ascii_uppercase" in ast.unparse(sub):
+            reader_upper = pred_classes(sub)
+        elif isinstance(sub, ast.Call) and isinstance(sub.func, ast.Attribute) and sub.func.attr == "isupper" and \
+                isinstance(sub.func.value, ast.Subscript) and reader_upper is None:
             reader_upper = pred_classes(sub)
     if mark_v is None or mark_t is None or reader_upper is None or "nonempty" in (mark_v, mark_t, reader_upper):
         rep.error("R7", "C20.2", rl.qname, "marker-predicates", "the first-character predicates of to_text / _read_line are "
@@ -214,8 +243,14 @@ def run(eng, rep, tier):
     ob.decide("R1", "C20.3", fe, "box=minimised-regex-automaton", okb,
               "each box holds Regex(body).to_epsilon_nfa().minimize()",
               "a box of from_ebnf is not the minimised automaton of its body's regex", se, site=site_of(prog, fe, fe.node))
-    per_head = any(isinstance(l, ast.For) and "productions" in ast.unparse(l.iter) and
-                   any(isinstance(c, ast.Call) and getattr(c.func, "id", "") == "Box" for c in ast.walk(l))
+    # a Box is built inside a loop / comprehension over the (head, body) items of a mapping
+    def _over_items(it):
+        return isinstance(it, ast.Call) and isinstance(it.func, ast.Attribute) and it.func.attr == "items"
+    def _has_box(node):
+        return any(isinstance(c, ast.Call) and getattr(c.func, "id", "") == "Box" for c in ast.walk(node))
+    per_head = any((isinstance(l, ast.For) and _over_items(l.iter) and _has_box(l)) or
+                   (isinstance(l, (ast.ListComp, ast.SetComp, ast.GeneratorExp)) and _has_box(l.elt)
+                    and any(_over_items(g.iter) for g in l.generators))
                    for l in ast.walk(fe.node))
     ob.decide("R1", "C20.3", fe, "one-box-per-head", per_head, "one box per head", "from_ebnf does not build one box per head",
               None, site=site_of(prog, fe, fe.node))
@@ -245,12 +280,15 @@ def classifier_table(fn):
     chain = None
     for sub in ast.walk(fn.node):
         if isinstance(sub, ast.If) and any(isinstance(c, ast.Call) and getattr(c.func, "id", "") in ("Variable", "Terminal")
-                                           for st in sub.body for c in ast.walk(st)) and \
-                ("type_component" in ast.unparse(sub.test)):
+                                           for st in sub.body for c in ast.walk(st)):
             chain = sub
             break
     if chain is None:
         return None, "no if/elif chain constructing Variable / Terminal found"
+
+    # locals assigned exactly once by `name = <expr>` are read through (named booleans such as `forced_terminal`)
+    from .counters import _single_defs
+    defs = _single_defs(fn.node)
 
     def atom(e):
         txt = ast.unparse(e)
@@ -274,6 +312,8 @@ def classifier_table(fn):
         if isinstance(e, ast.UnaryOp) and isinstance(e.op, ast.Not):
             v = ev(e.operand, atoms)
             return None if v is None else (not v)
+        if isinstance(e, ast.Name) and e.id in defs and isinstance(defs[e.id], (ast.BoolOp, ast.Compare, ast.UnaryOp, ast.Call)):
+            return ev(defs[e.id], atoms)
         a = atom(e)
         if a is None:
             return None
